@@ -39,4 +39,5 @@ const (
 	VendorSpecificAppId
 	ABResponse
 	AcctBalanceId
+	AcctBalance
 )
